@@ -40,12 +40,16 @@ Judge(e) ==
       noerr  == \A r \in rids : resps[r].kind \notin {"error", "panic", "timeout", "none"}
       accepted == {r \in rids : reqs[r].op = "AddVersion" /\ resps[r].kind = "ok"}
       checks == <<
-        <<"C03", e.nfaults = 0 => ( MutexOK(e.backend, e.log) /\ noerr /\ lin /\ ChainOK(final) /\ e.other = e.other0 ) >>,
-        <<"C11", (e.nfaults = 0 /\ snapops) => (noerr /\ lin) >>,
-        <<"C01", e.nfaults = 0 => ChainOK(final) >>,
-        <<"C02", e.nfaults = 0 =>
+        <<"C03", (~e.faulted) => ( MutexOK(e.backend, e.log) /\ noerr /\ lin /\ ChainOK(final) /\ e.other = e.other0 ) >>,
+        <<"C11", (~e.faulted /\ snapops) => (noerr /\ lin) >>,
+        <<"C01", (~e.faulted) => ChainOK(final) >>,
+        <<"C02", (~e.faulted) =>
                    \A r, s \in accepted : (r # s /\ reqs[r].arg = reqs[s].arg) => seedcs.latest = Nil /\ FALSE >>,
-        <<"C07", e.nfaults = 0 =>
+        <<"C05", e.faulted =>
+                   ( Cardinality(rids) = 1
+                     /\ C05_Round(e.cfg, seedcs, reqs[1], resps[1], final, [i \in DOMAIN e.follow |-> [req |-> e.follow[i].req, resp |-> e.follow[i].resp]])
+                     /\ e.other = e.other0 ) >>,
+        <<"C07", (~e.faulted) =>
                    /\ seedcs.versions \subseteq final.versions
                    /\ \A r \in accepted : \E v \in final.versions :
                          v.vid = resps[r].vid /\ v.parent = reqs[r].arg /\ v.tok = reqs[r].tok >>
